@@ -76,3 +76,30 @@ Example ex_illegal_prefixes :
   /\ validate_prefix wkp_net = true
   /\ c_prefixes (compile (mk_config [Some (mk_net (zeros 16) 72 16); None] [] [] None None)) = [mk_cprefix wkp_net true].
 Proof. repeat split; reflexivity. Qed.
+
+(* ------------------------------------------------------------------ *)
+(* The three defects repaired by 3d56ccc, as statements about the [old]
+   variant next to what the tree does now.  Reverting the commit makes the
+   driver observe the [old] column again (the revert-regression in NOTES.md). *)
+Example ex_old_extract_embed_refuted :
+  let p := mk_net (zeros 16) 56 16 in
+  let v4 := [0; 0; 255; 255] in
+  wf_prefix p /\ embed p v4 = [0;0;0;0;0;0;0;0;0;0;255;255;0;0;0;0]
+  /\ extract old p (embed p v4) = None
+  /\ extract cur p (embed p v4) = Some v4.
+Proof. repeat split; reflexivity. Qed.
+
+Example ex_old_owner_and_ttl_refuted :
+  let x_old := serve old ad_witness_cf ad_witness_q (Some (ttl_witness_down, 0)) false (QResp ttl_witness_a) in
+  let x_now := serve cur ad_witness_cf ad_witness_q (Some (ttl_witness_down, 0)) false (QResp ttl_witness_a) in
+  spec_negative_ttl ttl_witness_down = 0
+  /\ x_reply x_old = Some (mk_reply false 0 false [4] [RAAAA (bs "h.ex.t.") 300 [0; 100; 255; 155; 0; 0; 0; 0; 0; 0; 0; 0; 192; 0; 9; 1]])
+  /\ x_reply x_now = Some (mk_reply false 0 false [4] [RAAAA (bs "h.ex.t.") 0 [0; 100; 255; 155; 0; 0; 0; 0; 0; 0; 0; 0; 192; 0; 9; 1]]).
+Proof. repeat split; reflexivity. Qed.
+
+Example ex_old_never_ad_refuted :
+  let x_old := serve old ad_witness_cf ad_witness_q (Some (ad_witness_down, 0)) false (QResp ad_witness_a) in
+  let x_now := serve cur ad_witness_cf ad_witness_q (Some (ad_witness_down, 0)) false (QResp ad_witness_a) in
+  x_path x_old = PFallback /\ x_reply x_old = Some (mk_reply false 0 true [] [])
+  /\ x_path x_now = PFallback /\ x_reply x_now = Some (mk_reply false 0 false [4] []).
+Proof. repeat split; reflexivity. Qed.
